@@ -14,9 +14,12 @@ import (
 	"flag"
 	"fmt"
 	"os"
+	"os/exec"
 	"path/filepath"
+	"runtime"
 	"sort"
 	"strconv"
+	"sync"
 	"time"
 
 	"verifharness/internal/rng"
@@ -180,6 +183,7 @@ func main() {
 	only := flag.String("only", "", "C06|C07: which property's scenarios to run (default both)")
 	scale := flag.Int("scale", 1, "multiplier of the scenario counts")
 	limit := flag.Int("limit", 0, "run only the first N scenarios (debugging)")
+	chunk := flag.String("chunk", "", "internal: run scenarios a:b and write part_a.json")
 	verbose := flag.Bool("v", false, "print every scenario and its duration")
 	flag.Parse()
 	if *out == "" {
@@ -224,6 +228,84 @@ func main() {
 		}
 	}
 
+	if *limit > 0 && len(scens) > *limit {
+		scens = scens[:*limit]
+	}
+	// ---- run: in this process (a chunk, a replay, a small set) or in child processes ----
+	const chunkSize = 400
+	if *chunk != "" {
+		var a, b int
+		fmt.Sscanf(*chunk, "%d:%d", &a, &b)
+		if b > len(scens) {
+			b = len(scens)
+		}
+		recs := runAll(scens[a:b], a, work, *verbose)
+		j, _ := json.Marshal(recs)
+		if err := os.WriteFile(filepath.Join(*out, fmt.Sprintf("part_%d.json", a)), j, 0o644); err != nil {
+			panic(err)
+		}
+		return
+	}
+	var recs []scRec
+	if len(scens) <= chunkSize {
+		recs = runAll(scens, 0, work, *verbose)
+	} else {
+		// parked goroutines of abandoned requests accumulate in a process (and with them the
+		// cost of inspecting goroutine states): every chunk gets a fresh process
+		type job struct{ a, b int }
+		var jobs []job
+		for a := 0; a < len(scens); a += chunkSize {
+			jobs = append(jobs, job{a, a + chunkSize})
+		}
+		workers := runtime.NumCPU() / 2
+		if workers < 1 {
+			workers = 1
+		}
+		if workers > 6 {
+			workers = 6
+		}
+		sem := make(chan struct{}, workers)
+		errs := make([]error, len(jobs))
+		var wg sync.WaitGroup
+		for ji, jb := range jobs {
+			wg.Add(1)
+			sem <- struct{}{}
+			go func(ji int, jb job) {
+				defer wg.Done()
+				defer func() { <-sem }()
+				cout := filepath.Join(*out, fmt.Sprintf("chunk_%d", jb.a))
+				args := []string{"-seed", fmt.Sprint(*seed), "-tier", *tier, "-out", cout, "-only", *only,
+					"-scale", fmt.Sprint(*scale), "-chunk", fmt.Sprintf("%d:%d", jb.a, jb.b)}
+				if *limit > 0 {
+					args = append(args, "-limit", fmt.Sprint(*limit))
+				}
+				cmd := exec.Command(os.Args[0], args...)
+				cmd.Stderr = os.Stderr
+				errs[ji] = cmd.Run()
+			}(ji, jb)
+		}
+		wg.Wait()
+		for ji, jb := range jobs {
+			cout := filepath.Join(*out, fmt.Sprintf("chunk_%d", jb.a))
+			if errs[ji] != nil {
+				recs = append(recs, scRec{ID: jb.a, Infra: fmt.Sprintf("chunk %d: %v", jb.a, errs[ji])})
+				continue
+			}
+			raw, err := os.ReadFile(filepath.Join(cout, fmt.Sprintf("part_%d.json", jb.a)))
+			if err != nil {
+				recs = append(recs, scRec{ID: jb.a, Infra: err.Error()})
+				continue
+			}
+			var part []scRec
+			if err := json.Unmarshal(raw, &part); err != nil {
+				recs = append(recs, scRec{ID: jb.a, Infra: err.Error()})
+				continue
+			}
+			recs = append(recs, part...)
+			os.RemoveAll(cout)
+		}
+	}
+
 	var failures []failure
 	var infra []string
 	type caseRec struct {
@@ -235,7 +317,6 @@ func main() {
 	var cases []caseRec
 	dist := map[string]int{}
 	seen := map[string]bool{}
-	confirmed := map[string]int{}
 	distinct := 0
 	var samples []json.RawMessage
 	var shard *os.File
@@ -250,57 +331,17 @@ func main() {
 			shard = nil
 		}
 	}
-	if *limit > 0 && len(scens) > *limit {
-		scens = scens[:*limit]
-	}
-	for id, sc := range scens {
-		t1 := time.Now()
-		res := runScenario(sc, work)
-		if *verbose {
-			fmt.Fprintf(os.Stderr, "%d %s %.3fs err=%q fails=%d %s\n", id, sc.Kind, time.Since(t1).Seconds(), res.infraErr, len(res.fails), sc.json())
+	for _, rc := range recs {
+		if rc.Infra != "" {
+			infra = append(infra, rc.Infra)
 		}
-		if res.infraErr != "" {
-			infra = append(infra, fmt.Sprintf("scenario %d (%s): %s", id, sc.Kind, res.infraErr))
+		infra = append(infra, rc.Notes...)
+		failures = append(failures, rc.Fails...)
+		for _, t := range rc.Tags {
+			dist[t]++
+		}
+		if rc.Coq == "" {
 			continue
-		}
-		needConfirm := false
-		for _, f := range res.fails {
-			if confirmed[f.Signature] < 5 {
-				needConfirm = true
-			}
-		}
-		if len(res.fails) > 0 && !needConfirm {
-			failures = append(failures, res.fails...)
-		} else if len(res.fails) > 0 {
-			// a finding must reproduce: three runs, the same signatures (done for the first
-			// five scenarios of every signature; later ones are counted as observed)
-			keep := map[string]int{}
-			for _, f := range res.fails {
-				keep[f.Signature] = 1
-			}
-			for k := 0; k < 2; k++ {
-				r2 := runScenario(sc, work)
-				got := map[string]bool{}
-				for _, f := range r2.fails {
-					got[f.Signature] = true
-				}
-				for s := range keep {
-					if got[s] {
-						keep[s]++
-					}
-				}
-			}
-			for _, f := range res.fails {
-				if keep[f.Signature] == 3 {
-					failures = append(failures, f)
-					confirmed[f.Signature]++
-				} else if sc.Kind == "close" && sc.Order == "free" {
-					// the free run is a genuine race: an outcome that does not repeat is not a finding
-					dist["close:free:outcome-not-repeated"]++
-				} else {
-					infra = append(infra, fmt.Sprintf("scenario %d: failure %s did not reproduce 3 times", id, f.Signature))
-				}
-			}
 		}
 		if shard == nil || inShard >= shardSize {
 			closeShard()
@@ -319,22 +360,19 @@ func main() {
 		if inShard > 0 {
 			fmt.Fprintln(shard, ";")
 		}
-		fmt.Fprint(shard, res.coq)
-		cases = append(cases, caseRec{ID: id, Shard: shardIdx, Index: inShard, Input: sc.json()})
+		fmt.Fprint(shard, rc.Coq)
+		cases = append(cases, caseRec{ID: rc.ID, Shard: shardIdx, Index: inShard, Input: rc.Input})
 		inShard++
-		h := sha256.Sum256(sc.json())
+		h := sha256.Sum256(rc.Input)
 		hs := hex.EncodeToString(h[:8])
 		if !seen[hs] {
 			seen[hs] = true
-			if res.nontriv {
+			if rc.Nontriv {
 				distinct++
 				if len(samples) < 3 {
-					samples = append(samples, sc.json())
+					samples = append(samples, rc.Input)
 				}
 			}
-		}
-		for _, t := range res.tags {
-			dist[t]++
 		}
 	}
 	closeShard()
@@ -380,6 +418,80 @@ func main() {
 	os.WriteFile(filepath.Join(*out, "result.json"), j, 0o644)
 	fmt.Printf("muxconc harness: %d scenarios, %d distinct non-trivial, %d oracle failures, %d infra errors, %d shards\n",
 		len(scens), distinct, len(failures), len(infra), shardIdx+1)
+}
+
+// result of one scenario, as passed from a chunk process to the parent
+type scRec struct {
+	ID      int             `json:"id"`
+	Input   json.RawMessage `json:"input,omitempty"`
+	Coq     string          `json:"coq,omitempty"`
+	Fails   []failure       `json:"fails,omitempty"`
+	Tags    []string        `json:"tags,omitempty"`
+	Nontriv bool            `json:"nontriv,omitempty"`
+	Infra   string          `json:"infra,omitempty"`
+	Notes   []string        `json:"notes,omitempty"`
+}
+
+func runAll(scens []scenario, base int, work string, verbose bool) []scRec {
+	var recs []scRec
+	confirmed := map[string]int{}
+	for k, sc := range scens {
+		id := base + k
+		t1 := time.Now()
+		res := runScenario(sc, work)
+		if verbose {
+			fmt.Fprintf(os.Stderr, "%d %s %.3fs err=%q fails=%d %s\n", id, sc.Kind, time.Since(t1).Seconds(), res.infraErr, len(res.fails), sc.json())
+		}
+		rc := scRec{ID: id, Input: sc.json()}
+		if res.infraErr != "" {
+			rc.Infra = fmt.Sprintf("scenario %d (%s): %s", id, sc.Kind, res.infraErr)
+			recs = append(recs, rc)
+			continue
+		}
+		needConfirm := false
+		for _, f := range res.fails {
+			if confirmed[f.Signature] < 5 {
+				needConfirm = true
+			}
+		}
+		if len(res.fails) > 0 && !needConfirm {
+			rc.Fails = res.fails
+		} else if len(res.fails) > 0 {
+			// a finding must reproduce: three runs, the same signatures (done for the first
+			// five scenarios of every signature in a process; later ones are counted as observed)
+			keep := map[string]int{}
+			for _, f := range res.fails {
+				keep[f.Signature] = 1
+			}
+			for k := 0; k < 2; k++ {
+				r2 := runScenario(sc, work)
+				got := map[string]bool{}
+				for _, f := range r2.fails {
+					got[f.Signature] = true
+				}
+				for s := range keep {
+					if got[s] {
+						keep[s]++
+					}
+				}
+			}
+			for _, f := range res.fails {
+				if keep[f.Signature] == 3 {
+					rc.Fails = append(rc.Fails, f)
+					confirmed[f.Signature]++
+				} else if sc.Kind == "close" && sc.Order == "free" {
+					// the free run is a genuine race: an outcome that does not repeat is not a finding
+					rc.Tags = append(rc.Tags, "close:free:outcome-not-repeated")
+				} else {
+					rc.Notes = append(rc.Notes, fmt.Sprintf("scenario %d: failure %s did not reproduce 3 times", id, f.Signature))
+				}
+			}
+		}
+		rc.Coq, rc.Nontriv = res.coq, res.nontriv
+		rc.Tags = append(rc.Tags, res.tags...)
+		recs = append(recs, rc)
+	}
+	return recs
 }
 
 // ---------------- generators ----------------
